@@ -183,13 +183,27 @@ def make_run(W, shape, known_active=None):
                         ok = False
 
         phase("initial")
+        if shape.get("derive"):
+            # an unlinked copy is derived from the warm function and used (its first build locks the function it derives from):
+            # not a change of the function's own methods
+            derived = parent.copy()
+            for c in CH:
+                full_outcome(lambda: derived(inst(c)), LOG)
+            phase("after an unlinked copy was built and used", warmup=False)
         if shape.get("linked"):
             for c in CH:
                 full_outcome(lambda: parent.dispatch(inst(c)), LOG)      # first use of the parent: builds the parent only
             phase("after the parent's first use", warmup=False)
         hs[M].__annotations__ = {"x": W.K[2] if n > 2 else object}
-        parent.register(hs[M], priority=(CountInt(0) if shape.get('equal_prio') else W.prio[M]))
-        phase("after register")
+        if shape.get("derive"):
+            # (the function is locked by its copy now) the new method goes to the copy: again no change of the function's own methods
+            derived.register(hs[M], priority=(CountInt(0) if shape.get('equal_prio') else W.prio[M]))
+            for c in CH:
+                full_outcome(lambda: derived(inst(c)), LOG)
+            phase("after a registration on the copy", warmup=False)
+        else:
+            parent.register(hs[M], priority=(CountInt(0) if shape.get('equal_prio') else W.prio[M]))
+            phase("after register")
         if shape.get("wide"):
             # many more argument classes than any bounded table would keep: 140 fresh subclasses of K0, each handled once, then the first ones again
             subs = [type(W.K[0])(f"K0s{i}", (W.K[0],), {}) for i in range(140)] if hasattr(W.K[0], "_idx") else []
@@ -229,6 +243,7 @@ def gen_shapes(tier, seed):
         sh["equal_prio"] = tier == "quick"
         sh["linked"] = i % 4 == 3
         sh["wide"] = i % 8 == 1
+        sh["derive"] = i % 4 == 2
     return out, total, True
 
 
@@ -252,7 +267,7 @@ def main(tier, seed):
         bounds=dict(classes=3, methods="3 (+1 registered after the first phase)", positions=1,
                     annotations="harness classes, object, two class_check(predicate) types, Dependent[class_check(predicate), condition], one user type with __type_order__/__is_supertype__ hooks",
                     bodies="return | call_next(x) | recurse(other) | call_next(other)", calls="warm-up of K0, K1, object(); then each again; register; both phases again; every 4th method set: the calls go to a linkback copy, "
-                    "whose parent is used for the first time between the phases (no re-warm allowed) and receives the registration; every 8th: 140 further "
+                    "whose parent is used for the first time between the phases (no re-warm allowed) and receives the registration; every 4th: an unlinked copy() is built and used between the phases; every 8th: 140 further "
                     "subclasses of K0 are handled once each and the first 12 called again",
                     hook_answers="predicates: one solver boolean per (predicate, class); hooks: supertype boolean per class, order chosen among "
                                  "LESS/MORE/NONE/NotImplemented per class",
